@@ -77,3 +77,25 @@ METAS = [
 
 def needs(ast):
     return names_used(ast)
+
+
+def near_special_floats():
+    """decimal texts of doubles at and around values a serialiser might be tempted to prettify or round:
+    multiples of pi, e, 1, 1/3, sqrt(2), powers of ten - each exactly, one ulp-scale step away, and at relative
+    distances 1e-9 .. 1e-4, plus their roundings to 2-8 decimals"""
+    import math
+    specials = [math.pi / 4, math.pi / 2, math.pi, 2 * math.pi, math.e, 1.0, 1 / 3, 2 ** 0.5, 10.0, 100.0, 0.1, 0.001]
+    rel = [0.0, 2e-16, -2e-16, 1e-9, -1e-9, 1e-6, -1e-6, 9e-6, -9e-6, 1e-4, -1e-4]
+    out = []
+    for s_ in specials:
+        for r in rel:
+            out.append(repr(s_ * (1 + r)))
+        for d in (2, 4, 5, 6, 8, 12):
+            out.append(repr(round(s_, d)))
+    seen = set()
+    res = []
+    for t in out:
+        if t not in seen and "e" not in t and float(t) != 0.0:
+            seen.add(t)
+            res.append(t)
+    return res
